@@ -48,12 +48,13 @@ theorem unclassifiable_sent_directly (cfg : Cfg) (hw : cfg.wf = true) (t0 : Nat)
   obtain ⟨r, hr⟩ := holdsFrom_mem cfg _ _ (c19_holds cfg hw t0 is) o ho
   have hroute : shouldRoute cfg o.inp.host o.inp.hdr = false := by
     simp [shouldRoute, hh, ha, unclassifiable_not_external cfg _ hx]
-  simp only [eventOk, filterRespected, hroute, Bool.and_eq_true, Bool.or_false,
+  simp only [eventOk, filterRespected, hroute, Bool.and_eq_true, Bool.or_false, Bool.false_and,
     Bool.not_eq_true'] at hr
   exact noSwallow_direct_only o hr.1.1.1 hr.1.2
 
 /-- Asking the filter directly (`TrafficFilter.is_allowed`), anywhere in a run and with the cache
-    the calls have filled so far, always yields an answer and the answer is the routing rule. -/
+    the calls have filled so far, always yields an answer; the answer is the routing rule, except
+    that a decision during which the resolver failed transiently answers "do not route". -/
 theorem decisions_hold (cfg : Cfg) (hw : cfg.wf = true) (t0 : Nat) (is : List Input) :
     decisionsOk cfg (runDec cfg (St.init t0) is) = true :=
   runDec_ok cfg hw is (St.init t0) Ref.init (rel_init cfg t0)
@@ -62,15 +63,30 @@ theorem decisions_hold (cfg : Cfg) (hw : cfg.wf = true) (t0 : Nat) (is : List In
     (`gaierror`, plain `OSError`, `herror`, `timeout`, `UnicodeError`): a name that is not an IP
     literal, is not cached and does not resolve to an address is answered "do not route", and the
     failure is not cached (whatever the cache, lists validity and block list). -/
-theorem resolver_failure_not_routed (cfg : Cfg) (c : Cache) (h : Str) (hdr : Hdr)
+theorem resolver_failure_not_routed (cfg : Cfg) (c : Cache) (lk : Lookups) (h : Str) (hdr : Hdr)
     (hh : hdrOverride hdr = none) (ha : (mkFilter cfg).allow = none)
     (hv : validateIp h = false) (hc : cacheGet c h = none)
     (hr : cfg.resolve h = .gaierror ∨ cfg.resolve h = .oserror ∨ cfg.resolve h = .herror ∨
           cfg.resolve h = .timeout ∨ cfg.resolve h = .unicodeErr) :
-    isAllowed cfg (mkFilter cfg) c h hdr = (false, c) := by
-  apply isAllowed_of_resolver_failure cfg c h hdr hh ha hv hc
+    (isAllowed cfg (mkFilter cfg) c lk h hdr).allowed = false ∧
+    (isAllowed cfg (mkFilter cfg) c lk h hdr).cache = c := by
+  apply isAllowed_of_resolver_failure cfg c lk h hdr hh ha hv hc
   intro a ha'
   rcases hr with e | e | e | e | e <;> rw [e] at ha' <;> exact absurd ha' (by simp)
+
+/-- A TRANSIENT resolver failure (the resolver's answers are a history: the first lookups of a
+    name fail, later ones succeed) is not remembered: the decision answers "do not route", reports
+    the fault, consumes one lookup and leaves the verdict cache exactly as it was - so the next
+    decision looks the name up again (`routed_when_closed` then routes a public destination). -/
+theorem transient_failure_not_remembered (cfg : Cfg) (c : Cache) (lk : Lookups) (h : Str) (hdr : Hdr)
+    (hvalid : (mkFilter cfg).valid = true) (hh : hdrOverride hdr = none)
+    (ha : (mkFilter cfg).allow = none) (hb : checkBlocked (mkFilter cfg) h = true)
+    (hv : validateIp h = false) (hc : cacheGet c h = none)
+    (ht : lookupCount lk h < cfg.transientFor h) :
+    isAllowed cfg (mkFilter cfg) c lk h hdr = ⟨false, c, bumpLookup lk h, true⟩ := by
+  unfold isAllowed
+  simp only [hvalid, hh, ha, hb, Bool.not_true, Bool.false_eq_true, if_false, if_true]
+  exact isExternal_of_transient cfg c lk h hv hc ht
 
 /-- … and on every run such a call is sent to the provider only, the application gets the
     provider's answer, nothing is raised (no header override, no allow list). -/
@@ -82,7 +98,7 @@ theorem resolver_failure_sent_directly (cfg : Cfg) (hw : cfg.wf = true) (t0 : Na
   obtain ⟨r, hr'⟩ := holdsFrom_mem cfg _ _ (c19_holds cfg hw t0 is) o ho
   have hroute : shouldRoute cfg o.inp.host o.inp.hdr = false := by
     simp [shouldRoute, hh, ha, external_false_of_no_addr cfg _ hp hr]
-  simp only [eventOk, filterRespected, hroute, Bool.and_eq_true, Bool.or_false,
+  simp only [eventOk, filterRespected, hroute, Bool.and_eq_true, Bool.or_false, Bool.false_and,
     Bool.not_eq_true'] at hr'
   exact noSwallow_direct_only o hr'.1.1.1 hr'.1.2
 
@@ -127,7 +143,7 @@ theorem trips_after_n (cfg : Cfg) (hw : cfg.wf = true) (t0 : Nat) (is : List Inp
     (by simp) hin
 
 /-- Once the cool-down that followed the trip has elapsed, a destination the gateway should see
-    is tried through the gateway again. -/
+    is tried through the gateway again (in a call during which the resolver does not fail). -/
 theorem retries_after_cooldown (cfg : Cfg) (hw : cfg.wf = true) (t0 : Nat) (is : List Input)
     (pre init : List Obs) (f : Obs) (mid : List Obs) (o : Obs) (post : List Obs)
     (hrun : run cfg (St.init t0) is = pre ++ ((init ++ [f]) ++ (mid ++ o :: post)))
@@ -135,7 +151,7 @@ theorem retries_after_cooldown (cfg : Cfg) (hw : cfg.wf = true) (t0 : Nat) (is :
     (hfail : ∀ x ∈ init ++ [f], gwTried x = true ∧ x.inp.gw.failed = true)
     (hmid : ∀ x ∈ mid, x.t < f.t + cfg.coolTicks)
     (hout : f.t + cfg.coolTicks ≤ o.t)
-    (hroute : shouldRoute cfg o.inp.host o.inp.hdr = true) :
+    (hroute : shouldRoute cfg o.inp.host o.inp.hdr = true) (hnf : o.fault = false) :
     gwTried o = true := by
   have h := c19_holds cfg hw t0 is
   rw [holds, hrun, holdsFrom_append cfg pre, holdsFrom_append cfg (init ++ [f]),
@@ -148,29 +164,31 @@ theorem retries_after_cooldown (cfg : Cfg) (hw : cfg.wf = true) (t0 : Nat) (is :
   have hclosed : Ref.isOpen cfg (mid.foldl (Ref.next cfg)
       ((init ++ [f]).foldl (Ref.next cfg) (pre.foldl (Ref.next cfg) Ref.init))) o.t = false := by
     simp only [Ref.isOpen, hstab, decide_eq_false_iff_not]; omega
-  simp only [eventOk, recovers, hclosed, hroute, Bool.and_eq_true, Bool.not_true, Bool.false_or] at hev
+  simp only [eventOk, recovers, hclosed, hroute, hnf, Bool.and_eq_true, Bool.not_true, Bool.false_or] at hev
   exact hev.2
 
 /-- In general: whenever the reference breaker computed from the observed history is closed, a
-    destination the gateway should see is tried through the gateway. -/
+    destination the gateway should see is tried through the gateway (in a call during which the
+    resolver does not fail): in particular a name whose earlier lookups failed transiently is looked
+    up again and routed - a failed lookup is never remembered. -/
 theorem routed_when_closed (cfg : Cfg) (hw : cfg.wf = true) (t0 : Nat) (is : List Input)
     (pre : List Obs) (o : Obs) (post : List Obs)
     (hrun : run cfg (St.init t0) is = pre ++ o :: post)
     (hclosed : (refAfter cfg pre).isOpen cfg o.t = false)
-    (hroute : shouldRoute cfg o.inp.host o.inp.hdr = true) :
+    (hroute : shouldRoute cfg o.inp.host o.inp.hdr = true) (hnf : o.fault = false) :
     gwTried o = true := by
   have h := c19_holds cfg hw t0 is
   rw [holds, hrun, holdsFrom_append] at h
   simp only [Bool.and_eq_true] at h
   have hev := holdsFrom_head cfg _ o post h.2
   unfold refAfter at hclosed
-  simp only [eventOk, recovers, hclosed, hroute, Bool.and_eq_true, Bool.not_true, Bool.false_or] at hev
+  simp only [eventOk, recovers, hclosed, hroute, hnf, Bool.and_eq_true, Bool.not_true, Bool.false_or] at hev
   exact hev.2
 
 /-- A successful call through the gateway clears the failure count (any state, any call). -/
 theorem success_resets (cfg : Cfg) (s : St) (c : CallIn)
     (h : (call cfg s c).2.result = .respGw) : (call cfg s c).1.cnt = 0 := by
-  rcases call_cases cfg s c with ⟨_, e⟩ | ⟨_, x, e⟩ | ⟨_, x, e⟩ <;> rw [e] at h ⊢
+  rcases call_cases cfg s c with ⟨_, e⟩ | ⟨_, x, y, e⟩ | ⟨_, x, y, e⟩ <;> rw [e] at h ⊢
   · exact absurd h (directResult_ne_respGw c)
   · exact absurd h (directResult_ne_respGw c)
   · unfold gwLeg at h ⊢
@@ -185,7 +203,7 @@ theorem foreign_errors_propagate (cfg : Cfg) (s : St) (c : CallIn)
     (call cfg s c).2 = ⟨[.gw], .raiseGwApp⟩ ∧ (call cfg s c).1.cnt = s.cnt ∧
     (call cfg s c).1.ok = (stateOk cfg s).ok ∧ (call cfg s c).1.start = s.start := by
   obtain ⟨hc, hst, _⟩ := stateOk_fields cfg s
-  rcases call_cases cfg s c with ⟨_, e⟩ | ⟨_, x, e⟩ | ⟨_, x, e⟩ <;> rw [e] at hs ⊢
+  rcases call_cases cfg s c with ⟨_, e⟩ | ⟨_, x, y, e⟩ | ⟨_, x, y, e⟩ <;> rw [e] at hs ⊢
   · simp [directLeg] at hs
   · simp [directLeg] at hs
   · unfold gwLeg
@@ -199,7 +217,7 @@ theorem never_swallow (cfg : Cfg) (s : St) (c : CallIn) :
     ((call cfg s c).2.sent.contains .direct = true → (call cfg s c).2.result = directResult c) ∧
     ((call cfg s c).2.sent.contains .gw = true → c.gw = .appExc →
         (call cfg s c).2.result = .raiseGwApp) := by
-  rcases call_cases cfg s c with ⟨_, e⟩ | ⟨_, x, e⟩ | ⟨_, x, e⟩ <;> rw [e]
+  rcases call_cases cfg s c with ⟨_, e⟩ | ⟨_, x, y, e⟩ | ⟨_, x, y, e⟩ <;> rw [e]
   · simp [directLeg]
   · simp [directLeg]
   · unfold gwLeg
@@ -249,7 +267,7 @@ theorem lists_respected (cfg : Cfg) (hw : cfg.wf = true) (t0 : Nat) (is : List I
   obtain ⟨r, hr⟩ := holdsFrom_mem cfg _ _ (c19_holds cfg hw t0 is) o ho
   have hsr : shouldRoute cfg o.inp.host o.inp.hdr = true := by
     simp only [eventOk, filterRespected, hgw, Bool.and_eq_true, Bool.not_true, Bool.false_or] at hr
-    exact hr.1.2
+    exact hr.1.2.1
   simp only [shouldRoute, Bool.and_eq_true] at hsr
   obtain ⟨_, hsr⟩ := hsr
   cases hov : hdrOverride o.inp.hdr with
@@ -280,7 +298,7 @@ theorem lists_respected (cfg : Cfg) (hw : cfg.wf = true) (t0 : Nat) (is : List I
 /-! ## Non-vacuity: concrete runs of the model -/
 
 private def api : Str := ['a', 'p', 'i']
-private def cfg21 : Cfg := ⟨2, 1, none, none, [(api, .ip ⟨93, 184, 216, 34⟩)]⟩
+private def cfg21 : Cfg := ⟨2, 1, none, none, [(api, .ip ⟨93, 184, 216, 34⟩)], []⟩
 private def fail1 : Input := .call ⟨api, .absent, .connErr, .ok⟩
 private def fail2 : Input := .call ⟨api, .absent, .errHdr ['1', '0'], .ok⟩
 private def good : Input := .call ⟨api, .absent, .ok, .ok⟩
@@ -294,22 +312,33 @@ example :
       = [(100, [.gw, .direct]), (100, [.gw, .direct]), (107, [.direct]), (108, [.gw])] := by
   decide
 
+/-- `transient_failure_not_remembered` / `routed_when_closed`: the first two lookups of a public name
+    fail transiently: those two calls go to the provider and report the fault, the third is routed
+    (and later ones use the cached verdict: no fault, no lookup). -/
+example :
+    (run ⟨2, 1, none, none, [(api, .ip ⟨93, 184, 216, 34⟩)], [(api, 2)]⟩ (St.init 0) [good, good, good, good]).map
+        (fun o => (o.out.sent, o.fault))
+      = [([.direct], true), ([.direct], true), ([.gw], false), ([.gw], false)] ∧
+    (runSt ⟨2, 1, none, none, [(api, .ip ⟨93, 184, 216, 34⟩)], [(api, 2)]⟩ (St.init 0) [good, good, good, good]).lookups
+      = [(api, 3)] := by
+  decide
+
 /-- `resolver_failure_not_routed` / `decisions_hold`: a resolver system error (plain `OSError`),
     `herror`, `timeout`: the call goes to the provider, the filter answers "no", nothing is cached. -/
 example :
     let h : Str := ['d', 'b']
-    (call ⟨2, 1, none, none, [(h, .oserror)]⟩ (St.init 0) ⟨h, .absent, .ok, .ok⟩).2 = ⟨[.direct], .respDirect⟩ ∧
-    (call ⟨2, 1, none, none, [(h, .herror)]⟩ (St.init 0) ⟨h, .absent, .ok, .exc⟩).2 = ⟨[.direct], .raiseDirectApp⟩ ∧
-    (runDec ⟨2, 1, none, none, [(h, .timeout)]⟩ (St.init 0) [.decide h .absent]).map (·.answer) = [false] ∧
-    (runSt ⟨2, 1, none, none, [(h, .oserror)]⟩ (St.init 0) [.decide h .absent]).cache = [] := by
+    (call ⟨2, 1, none, none, [(h, .oserror)], []⟩ (St.init 0) ⟨h, .absent, .ok, .ok⟩).2 = ⟨[.direct], .respDirect⟩ ∧
+    (call ⟨2, 1, none, none, [(h, .herror)], []⟩ (St.init 0) ⟨h, .absent, .ok, .exc⟩).2 = ⟨[.direct], .raiseDirectApp⟩ ∧
+    (runDec ⟨2, 1, none, none, [(h, .timeout)], []⟩ (St.init 0) [.decide h .absent]).map (·.answer) = [false] ∧
+    (runSt ⟨2, 1, none, none, [(h, .oserror)], []⟩ (St.init 0) [.decide h .absent]).cache = [] := by
   decide
 
 /-- `decision_total` / `unclassifiable_sent_directly`: `::1` and a name whose resolution raises
     `UnicodeError` go to the provider, nothing is raised, the breaker state is untouched. -/
 example :
-    (call ⟨2, 1, none, none, []⟩ (St.init 0) ⟨[':', ':', '1'], .absent, .ok, .ok⟩).2
+    (call ⟨2, 1, none, none, [], []⟩ (St.init 0) ⟨[':', ':', '1'], .absent, .ok, .ok⟩).2
         = ⟨[.direct], .respDirect⟩ ∧
-    (call ⟨2, 1, none, none, [(['a', '.', '.', 'b'], .unicodeErr)]⟩ (St.init 0)
+    (call ⟨2, 1, none, none, [(['a', '.', '.', 'b'], .unicodeErr)], []⟩ (St.init 0)
         ⟨['a', '.', '.', 'b'], .absent, .ok, .ok⟩).2 = ⟨[.direct], .respDirect⟩ := by
   constructor <;> decide
 
@@ -327,10 +356,10 @@ example :
     blocked public name is not, `x-lunar-allow: true` overrides. -/
 example :
     let ten : Str := ['1', '0', '.', '0', '.', '0', '.', '1']
-    (call ⟨2, 1, none, none, []⟩ (St.init 0) ⟨ten, .absent, .ok, .ok⟩).2.sent = [.direct] ∧
-    (call ⟨2, 1, none, some ten, []⟩ (St.init 0) ⟨ten, .absent, .ok, .ok⟩).2.sent = [.gw] ∧
-    (call ⟨2, 1, some api, none, [(api, .ip ⟨93, 184, 216, 34⟩)]⟩ (St.init 0) ⟨api, .absent, .ok, .ok⟩).2.sent = [.direct] ∧
-    (call ⟨2, 1, none, none, []⟩ (St.init 0) ⟨ten, .val ['t', 'r', 'u', 'e'], .ok, .ok⟩).2.sent = [.gw] := by
+    (call ⟨2, 1, none, none, [], []⟩ (St.init 0) ⟨ten, .absent, .ok, .ok⟩).2.sent = [.direct] ∧
+    (call ⟨2, 1, none, some ten, [], []⟩ (St.init 0) ⟨ten, .absent, .ok, .ok⟩).2.sent = [.gw] ∧
+    (call ⟨2, 1, some api, none, [(api, .ip ⟨93, 184, 216, 34⟩)], []⟩ (St.init 0) ⟨api, .absent, .ok, .ok⟩).2.sent = [.direct] ∧
+    (call ⟨2, 1, none, none, [], []⟩ (St.init 0) ⟨ten, .val ['t', 'r', 'u', 'e'], .ok, .ok⟩).2.sent = [.gw] := by
   decide
 
 end LunarVerif.C19
@@ -345,8 +374,8 @@ open LunarVerif.Generated
     first error; a zero cool-down would never bypass). -/
 theorem interceptor_defaults_ok :
     Const.pyDefaultMaxErrors = 5 ∧ Const.pyDefaultCooldownSec = 10 ∧
-    (⟨0, 0, none, none, []⟩ : Cfg).maxEff = Const.pyDefaultMaxErrors.toNat ∧
-    (⟨0, 0, none, none, []⟩ : Cfg).coolEff = Const.pyDefaultCooldownSec.toNat := by
+    (⟨0, 0, none, none, [], []⟩ : Cfg).maxEff = Const.pyDefaultMaxErrors.toNat ∧
+    (⟨0, 0, none, none, [], []⟩ : Cfg).coolEff = Const.pyDefaultCooldownSec.toNat := by
   decide
 
 end LunarVerif.C19
